@@ -50,7 +50,8 @@ def check(model: Model, run: Run) -> None:
     # used it, on every path to the first _send_route_updates; kept, the same delta is re-applied at every later session and
     # withdraws again what the reload removed - also when the API has announced that prefix since
     if rr:
-        cuts = [n for n in walk_no_nested(mainf.node) if isinstance(n, ast.Assign) and dotted(n.targets[0]) == 'self.neighbor.previous' and isinstance(n.value, ast.Constant) and n.value.value is None]
+        mloc = Loc(model, mainf)
+        cuts = [n for n in walk_no_nested(mainf.node) if isinstance(n, ast.Assign) and isinstance(n.targets[0], ast.Attribute) and n.targets[0].attr == 'previous' and mloc.expand(n.targets[0].value) == 'self.neighbor' and isinstance(n.value, ast.Constant) and n.value.value is None]
         first_send = model.calls_to(mainf.module, mainf.node, 'Peer._send_route_updates')
         okcut = False
         if cuts and first_send:
